@@ -70,11 +70,11 @@ def _arr(rng, a, how):
     """An array argument as the caller might hold it: NumPy float64 / float32 / integer (rounded), jax float32, jax float64."""
     jnp = _L()["jnp"]
     a = np.round(np.asarray(a, dtype=float) * 8) / 8
-    return {"np64": lambda: a, "np32": lambda: a.astype(np.float32), "npint": lambda: np.round(a).astype(np.int64), "jaxint": lambda: jnp.asarray(np.round(a).astype(np.int32)),
+    return {"np64": lambda: a, "np32": lambda: a.astype(np.float32), "npint": lambda: np.round(a).astype(np.int64), "jaxi32": lambda: jnp.asarray(np.round(a).astype(np.int32)),
             "jax32": lambda: jnp.asarray(a, dtype=jnp.float32), "jax64": lambda: jnp.asarray(a)}[how]()
 
 
-ARR_HOW = ("np64", "np32", "npint", "jaxint", "jax32", "jax64")
+ARR_HOW = ("np64", "np32", "npint", "jaxi32", "jax32", "jax64")  # int32 promotes to float32 in jax: "32" -> float32 tolerance
 
 
 def _set_rqs(b, rng, knots):
@@ -116,7 +116,7 @@ def leaf_entries(ctx):
         add("LeakyTanh(max_val, shape)", B.LeakyTanh(K(m, mk), shape), B.LeakyTanh(m, shape), lambda x, m=m: c07.ref_leaky_tanh(m, x), ktol(mk), max_val=m, shape=list(shape), kinds=[mk])
         # spline: knots / interval / min_derivative / softmax_adjust in every type variant, scalar and tuple interval, integer interval ends
         kn, knk = _num(rng, 2, 9, allowed=INT_KINDS)
-        (md, mdk), (sadj, sak) = _num(rng, 0.125, 0.75, ints=False), _num(rng, 0, 2, allowed=INT_KINDS + ("pyfloat", "np.float64", "np.float32", "np0d"))
+        (md, mdk), (sadj, sak) = _num(rng, 0.125, 0.75, ints=False), _num(rng, 0, 2, allowed=NOJAX)  # a jax-array softmax_adjust is compared with 0 in python: no jit
         if rng.integers(0, 2):
             (iv, ivk) = _num(rng, 1, 5)
             iarg, iref, ivks = K(iv, ivk), iv, [ivk]
@@ -579,6 +579,568 @@ def unit_c14(ctx):
             if errs:
                 _viol(ctx, u, "C14", f"C14:{e['name'].split('(')[0].split('[')[0]}:{m}", f"{e['name']} built with {e['case']}: " + "; ".join(errs[:2]), dict(entry=e["name"], args=e["case"], method=m,
                       x=_np(xs).tolist(), condition=None if c is None else _np(c).tolist()))
+
+
+# ------------------------------------------------------------------ distributions built from argument type variants
+def dist_entries(ctx):
+    """name, dist, ref (same numbers as float64 jax arrays), logpdf (scipy, summed over the event), acc {accessor: expected}, case, tol."""
+    import scipy.stats as st
+
+    L = _L()
+    D, jnp, eqx = L["D"], L["jnp"], L["eqx"]
+    rng, out = ctx.rng, []
+    fam = {"Normal": lambda l, s: st.norm(l, s), "Cauchy": lambda l, s: st.cauchy(l, s), "Gumbel": lambda l, s: st.gumbel_r(l, s), "Laplace": lambda l, s: st.laplace(l, s),
+           "Logistic": lambda l, s: st.logistic(l, s), "LogNormal": lambda l, s: st.lognorm(s=s, scale=np.exp(l))}
+
+    def add(name, dist, ref, frozen, acc, tol, **case):
+        out.append(dict(name=name, dist=dist, ref=ref, logpdf=lambda x, f=frozen: np.sum(f.logpdf(x)) if np.ndim(f.logpdf(x)) else float(f.logpdf(x)), rvs=lambda f=frozen: f.rvs(random_state=rng),
+                        acc=acc, tol=tol, case=case))
+
+    def two(lo1, hi1, lo2, hi2):
+        """(values, arguments, kinds) of a (loc-like, scale-like) pair: scalars in every type variant or arrays in every array form."""
+        if rng.integers(0, 2):
+            (a, ak), (b, bk) = _num(rng, lo1, hi1), _num(rng, lo2, hi2)
+            return (a, b), (K(a, ak), K(b, bk)), [ak, bk]
+        ha, hb = ARR_HOW[int(rng.integers(0, 6))], ARR_HOW[int(rng.integers(0, 6))]
+        a, b = _arr(rng, rng.uniform(lo1, hi1, (3,)), ha), _arr(rng, rng.uniform(max(lo2, 1), hi2, [(3,), (2, 1), ()][int(rng.integers(0, 3))]), hb)
+        return (_np(a), _np(b)), (a, b), [ha, hb]
+
+    for name in list(fam) * (1 if ctx.quick else 3):
+        (l, s_), args, kinds = two(-3, 3, 0.25, 4)
+        add(f"{name}(loc, scale)", getattr(D, name)(*args), getattr(D, name)(jnp.asarray(l), jnp.asarray(s_)), fam[name](l, s_),
+            {} if name == "LogNormal" else dict(loc=np.broadcast_arrays(l, s_)[0], scale=np.broadcast_arrays(l, s_)[1]), ktol(*kinds), loc=np.asarray(l).tolist(), scale=np.asarray(s_).tolist(), kinds=kinds)
+    for _ in range(2):
+        (df, dk), ((l, s_), args, kinds) = _num(rng, 1, 9), two(-3, 3, 0.25, 4)
+        add("StudentT(df, loc, scale)", D.StudentT(K(df, dk), *args), D.StudentT(df, jnp.asarray(l), jnp.asarray(s_)), st.t(df, l, s_), dict(df=np.broadcast_arrays(df, l, s_)[0]), ktol(dk, *kinds),
+            df=df, loc=np.asarray(l).tolist(), scale=np.asarray(s_).tolist(), kinds=[dk, *kinds])
+        (lo, w), _, kinds = two(-3, 3, 1, 4)
+        hi = lo + w
+        args = tuple(K(v, k) if np.ndim(v) == 0 else _arr(rng, v, k) for v, k in zip((lo, hi), kinds))
+        add("Uniform(minval, maxval)", D.Uniform(*args), D.Uniform(jnp.asarray(_np(args[0])), jnp.asarray(_np(args[1]))), st.uniform(_np(args[0]), _np(args[1]) - _np(args[0])),
+            dict(minval=np.broadcast_arrays(_np(args[0]), _np(args[1]))[0], maxval=np.broadcast_arrays(_np(args[0]), _np(args[1]))[1]), ktol(*kinds), minval=_np(args[0]).tolist(), maxval=_np(args[1]).tolist(), kinds=kinds)
+        (_, r), (_, rarg), kinds = two(0, 1, 0.25, 4)
+        add("Exponential(rate)", D.Exponential(rarg), D.Exponential(jnp.asarray(_np(rarg))), st.expon(scale=1 / _np(rarg)), dict(rate=_np(rarg)), ktol(kinds[1]), rate=_np(rarg).tolist(), kinds=kinds[1:])
+        d = int(rng.integers(2, 5))
+        A = rng.normal(0, 1, (d, d))
+        hc, (lv_, lk) = ["np64", "np32", "jax32", "jax64"][int(rng.integers(0, 4))], _num(rng, -3, 3)
+        cov = _arr(rng, A @ A.T + d * np.eye(d), hc)
+        add("MultivariateNormal(scalar loc, covariance)", D.MultivariateNormal(K(lv_, lk), cov), D.MultivariateNormal(jnp.full(d, lv_), jnp.asarray(_np(cov))),
+            st.multivariate_normal(np.full(d, lv_), _np(cov)), dict(loc=np.full(d, lv_), covariance=_np(cov)), ktol(lk, hc), loc=lv_, covariance=_np(cov).tolist(), kinds=[lk, hc])
+        n, hw = int(rng.integers(2, 5)), ARR_HOW[int(rng.integers(0, 6))]
+        w, ls, ss = _arr(rng, rng.uniform(1, 5, n), hw), rng.normal(0, 2, n), rng.uniform(0.5, 2, n)
+        mix = lambda ww: D.VmapMixture(eqx.filter_vmap(D.Normal)(jnp.asarray(ls), jnp.asarray(ss)), ww)
+
+        class _Mix:  # textbook mixture: the weight-normalised sum of the component densities
+            def logpdf(self, x, w=_np(w), ls=ls, ss=ss):
+                return np.log(np.sum(w / w.sum() * st.norm(ls, ss).pdf(x)))
+
+            def rvs(self, random_state, ls=ls, ss=ss):
+                return float(random_state.normal(ls[0], ss[0]))
+        add("VmapMixture(dist, weights)", mix(w), mix(jnp.asarray(_np(w))), _Mix(), {}, ktol(hw), weights=_np(w).tolist(), locs=ls.tolist(), scales=ss.tolist(), kinds=[hw])
+    return out
+
+
+def _acc_errs(e):
+    d, errs = e["dist"], []
+    for nm, exp in e["acc"].items():
+        got = _np(getattr(d, nm))
+        if got.shape != tuple(d.shape) + ((d.shape[0],) if nm == "covariance" else ()) or not np.allclose(got, np.broadcast_to(exp, got.shape), rtol=max(e["tol"], 1e-12), atol=max(e["tol"], 1e-12)):
+            errs.append(f"accessor .{nm} = {np.ravel(got).tolist()[:6]}, the constructor was given {np.ravel(exp).tolist()[:6]}")
+    return errs
+
+
+def unit_c05(ctx):
+    u = ctx.unit("argcov-family-arguments", "every family built from python ints / floats, NumPy scalars, 0-d arrays, float32, integer-dtype and NumPy arrays (cross-rank broadcasting; scalar MVN "
+                                            "loc, NumPy covariance, integer mixture weights): log_prob == scipy at in-support points, support edges and outside (-inf, never NaN), "
+                                            "accessors return the constructor's values, == the float64-array object")
+    rng, jnp = ctx.rng, _L()["jnp"]
+    for e in dist_entries(ctx):
+        d = e["dist"]
+        pts = [np.asarray(e["rvs"](), dtype=float).reshape(d.shape) for _ in range(2)] + [np.asarray(rng.normal(0, 3, d.shape))]
+        if "Uniform" in e["name"]:
+            pts += [np.broadcast_to(np.asarray(e["case"]["minval"], float), d.shape), np.broadcast_to(np.asarray(e["case"]["maxval"], float), d.shape) + 0.5]
+        errs = []
+        for x in pts:
+            u.count((e["name"], e["case"], x.tolist()), tag=e["name"].split("(")[0])
+            with np.errstate(all="ignore"):
+                got, exp, gref = float(d.log_prob(jnp.asarray(x))), float(e["logpdf"](x)), float(e["ref"].log_prob(jnp.asarray(x)))
+            for nm, r in (("the textbook density (scipy)", exp), ("the float64-array object", gref)):
+                if np.isnan(got) or not (got == r or abs(got - r) <= max(e["tol"], 1e-9) * max(1.0, abs(r))):
+                    errs.append(f"log_prob({np.ravel(x).tolist()}) = {got!r}, {nm} gives {r!r}")
+        errs += _acc_errs(e)
+        if errs:
+            _viol(ctx, u, "C05", f"C05:{e['name']}", f"{e['name']} built with {e['case']}: " + "; ".join(errs[:2]), dict(entry=e["name"], args=e["case"]))
+
+
+def _key(rng):
+    return _L()["jr"].PRNGKey(int(rng.integers(0, 2 ** 31)))
+
+
+def identities_errs(d, key, c, tol=1e-8):
+    """The three statements of C03 on one (key, condition): joint log-prob == log_prob(sample), sample(key) == the joint's point == transform(base sample), log_prob ==
+    base log_prob(inverse) + inverse log-det."""
+    W, errs = _L()["W"], []
+    cc = () if c is None else (c,)
+    try:
+        x, lp = d.sample_and_log_prob(key, (), *cc)
+        lp2, xs = d.log_prob(x, *cc), d.sample(key, (), *cc)
+        if np.isfinite(float(lp2)) and not abs(float(lp) - float(lp2)) <= tol * max(1.0, abs(float(lp2))):
+            errs.append(f"sample_and_log_prob returned log-prob {float(lp)!r} but log_prob(sample) = {float(lp2)!r}")
+        if not np.allclose(_np(xs), _np(x), rtol=1e-12, atol=1e-12):
+            errs.append(f"sample(key) = {np.ravel(_np(xs)).tolist()} differs from the point of sample_and_log_prob(key) = {np.ravel(_np(x)).tolist()}")
+        if hasattr(d, "bijection"):
+            u = W.unwrap(d)
+            bc = () if u.bijection.cond_shape is None else cc
+            z0 = u.base_dist.sample(key, (), *(() if u.base_dist.cond_shape is None else cc))
+            if not np.allclose(_np(_call(u.bijection.transform, z0, *(bc or (None,)))), _np(x), rtol=1e-9, atol=1e-9):
+                errs.append(f"sample(key) = {np.ravel(_np(x)).tolist()} is not the bijection applied to the base sample for that key")
+            z, ldi = _call(u.bijection.inverse_and_log_det, x, *(bc or (None,)))
+            ref = float(u.base_dist.log_prob(z, *(() if u.base_dist.cond_shape is None else cc))) + float(ldi)
+            if np.isfinite(ref) and not abs(float(lp2) - ref) <= tol * max(1.0, abs(ref)):
+                errs.append(f"log_prob(x) = {float(lp2)!r} but base.log_prob(inverse(x)) + inverse log-det = {ref!r}")
+    except NotImplementedError:
+        pass
+    except Exception as e:  # noqa: BLE001
+        errs.append(f"raised {type(e).__name__}: {str(e)[:100]}")
+    return errs
+
+
+def unit_c03(ctx):
+    u = ctx.unit("argcov-path-identities", "Transformed(base built from argument type variants, Chain((Affine from type variants, LeakyTanh(max_val variant)))) and the flow factories "
+                                           "with non-default keywords (invert=False, transformer, nn_depth 0/2, nn_activation, BNAF activation / inverter, planar MLP keywords, "
+                                           "tanh_max_val, init): the three C03 identities at random keys / conditions")
+    L = _L()
+    rng, jnp, B, D = ctx.rng, L["jnp"], L["B"], L["D"]
+    items = []
+    for e in dist_entries(ctx):
+        (l, lk), (s_, sk), (m, mk) = _num(rng, -2, 2), _num(rng, 0.5, 3), _num(rng, 1, 3)
+        loc = jnp.full(e["dist"].shape, l) if rng.integers(0, 2) else K(l, lk) + np.zeros(e["dist"].shape)
+        bij = B.Chain((B.Affine(loc, K(s_, sk)), B.LeakyTanh(K(m, mk), e["dist"].shape)))
+        items.append((e["name"], dict(base=e["case"], affine=[l, s_], max_val=m, kinds=[lk, sk, mk]), 1e-8, D.Transformed(e["dist"], bij)))
+    items += [(e["name"], e["case"], 1e-8 if "lock" not in e["name"] else 1e-4, e["dist"]) for e in net_entries(ctx) if e.get("dist") is not None]
+    for name, case, tol, d in items:
+        for rep in range(2):
+            key, c = _key(rng), (None if d.cond_shape is None else jnp.asarray(rng.normal(0, 1, d.cond_shape)))
+            u.count((name, case, rep, _np(key).tolist()), tag=name.split("(")[0])
+            errs = identities_errs(d, key, c, tol)
+            if errs:
+                _viol(ctx, u, "C03", f"C03:{name}", f"{name} built with {case}: " + "; ".join(errs[:2]), dict(entry=name, args=case, key=_np(key).tolist(), condition=None if c is None else _np(c).tolist()))
+
+
+def unit_c06(ctx):
+    u = ctx.unit("argcov-batching", "distributions built from argument type variants + conditional flows with non-default keywords; x given as NumPy / float32 / integer-dtype batches, "
+                                    "sample_shape with NumPy ints, rank 2-3 and size-1 axes, batched conditions: every element == the unbatched call, shapes as documented, distinct draws, "
+                                    "same key same result")
+    L = _L()
+    rng, jnp = ctx.rng, L["jnp"]
+    ds = [(e["name"], e["case"], e["dist"]) for e in dist_entries(ctx)] + [(e["name"], e["case"], e["dist"]) for e in net_entries(ctx) if e.get("dist") is not None and "lock" not in e["name"]]
+    for name, case, d in ds:
+        bshape = [(3,), (2, 2), (1, 3)][int(rng.integers(0, 3))]
+        cb = None if d.cond_shape is None else [(), bshape, bshape[-1:]][int(rng.integers(0, 3))]
+        c = None if cb is None else jnp.asarray(rng.normal(0, 1, cb + d.cond_shape))
+        cc = () if c is None else (c,)
+        ss = [(np.int64(3),), (2, np.int64(2)), (1,), (3, 1, 2)][int(rng.integers(0, 4))]
+        key, errs = _key(rng), []
+        u.count((name, case, str(bshape), str(cb), str(ss)), tag=name.split("(")[0])
+        try:
+            X = _np(d.sample(key, bshape, *(() if c is None else (jnp.zeros(d.cond_shape),))))  # points of the support
+            how = ["numpy float64", "numpy float32", "jax float32", "rounded integer dtype"][int(rng.integers(0, 4))]
+            Xa = {"numpy float64": X, "numpy float32": X.astype(np.float32), "jax float32": jnp.asarray(X, dtype=jnp.float32), "rounded integer dtype": np.round(X).astype(np.int32)}[how]
+            lps = _np(d.log_prob(Xa, *cc))
+            Xf = _np(Xa)
+            bs = np.broadcast_shapes(Xf.shape[: Xf.ndim - len(d.shape)], cb or ())
+            if lps.shape != bs:
+                errs.append(f"log_prob of x batch {Xf.shape} ({how}) with condition batch {cb} has shape {lps.shape}, NumPy broadcasting gives {bs}")
+            else:
+                Xb = np.broadcast_to(Xf, bs + tuple(d.shape))
+                Cb = None if c is None else np.broadcast_to(_np(c), bs + d.cond_shape)
+                for idx in list(np.ndindex(*bs))[:4]:
+                    one = float(d.log_prob(jnp.asarray(Xb[idx]), *(() if c is None else (jnp.asarray(Cb[idx]),))))
+                    if not (lps[idx] == one or abs(lps[idx] - one) <= 1e-9 * max(1.0, abs(one))):
+                        errs.append(f"log_prob batch element {idx} = {lps[idx]!r} ({how} x), the unbatched call gives {one!r}")
+            S, (S2, lp2) = d.sample(key, ss, *cc), d.sample_and_log_prob(key, ss, *cc)
+            want = tuple(int(v) for v in ss) + (cb or ()) + tuple(d.shape)
+            if tuple(S.shape) != want or tuple(lp2.shape) != want[: len(want) - len(d.shape)]:
+                errs.append(f"sample(key, {ss}) has shape {S.shape} (log-probs {lp2.shape}), documented: sample_shape + condition batch + event = {want}")
+            rows = _np(S).reshape(-1, int(np.prod(d.shape)) if d.shape else 1)
+            if len({tuple(r) for r in rows.tolist()}) != len(rows):
+                errs.append(f"sample(key, {ss}) repeats draws: {len({tuple(r) for r in rows.tolist()})} distinct of {len(rows)}")
+            if not np.array_equal(_np(S), _np(d.sample(key, ss, *cc))) or not np.allclose(_np(S), _np(S2), rtol=1e-12, atol=1e-12):
+                errs.append("the same key does not give the same sample (sample twice / sample vs sample_and_log_prob)")
+            lpS = _np(d.log_prob(S2, *cc))
+            if not np.allclose(np.where(np.isfinite(lpS), _np(lp2), 0), np.where(np.isfinite(lpS), lpS, 0), rtol=1e-7, atol=1e-7):
+                errs.append("sample_and_log_prob log-probs differ from log_prob of the batch of samples")
+        except Exception as ex:  # noqa: BLE001
+            errs.append(f"raised {type(ex).__name__}: {str(ex)[:120]}")
+        if errs:
+            _viol(ctx, u, "C06", f"C06:{name}", f"{name} built with {case}, x batch {bshape}, condition batch {cb}, sample_shape {ss}: " + "; ".join(errs[:2]),
+                  dict(entry=name, args=case, batch=list(bshape), cond_batch=None if cb is None else list(cb), sample_shape=[int(v) for v in ss], key=_np(key).tolist()))
+
+
+def unit_c11(ctx):
+    from harness.flowcases import perturb
+
+    L = _L()
+    rng, jnp, jr, B, D, W, eqx = ctx.rng, L["jnp"], L["jr"], L["B"], L["D"], L["W"], L["eqx"]
+    u = ctx.unit("argcov-constraints", "objects built from argument type variants reproduce their constructor arguments (accessors, unwrapped scale / triangle / knots), keep their constraints "
+                                       "after every trainable array is moved by N(0, 5) (positive scales / diagonals / df, normalised weights, knots increasing between the given interval ends, "
+                                       "derivatives >= min_derivative, planar invertibility for the given slope)")
+    ur = ctx.unit("argcov-ctor-rejects", "constructor arguments outside the constraint, written in every numeric type variant, are rejected with an error (at first use where the check is lazy)")
+
+    def report(name, case, errs):
+        if errs:
+            _viol(ctx, u, "C11", f"C11:{name}", f"{name} built with {case}: " + "; ".join(errs[:2]), dict(entry=name, args=case))
+
+    for e in dist_entries(ctx):
+        u.count((e["name"], e["case"]), tag=e["name"].split("(")[0])
+        errs, d2 = _acc_errs(e), W.unwrap(perturb(e["dist"], rng, 5.0))
+        if hasattr(d2, "bijection") and hasattr(d2.bijection, "scale") and not np.all(_np(d2.bijection.scale) > 0):
+            errs.append(f"scale {np.ravel(_np(d2.bijection.scale)).tolist()} not positive after moving the trainable arrays")
+        if "StudentT" in e["name"] and not np.all(_np(d2.base_dist.df) > 0):
+            errs.append("df not positive after moving the trainable arrays")
+        if "Mixture" in e["name"] and not abs(float(np.sum(np.exp(_np(d2.log_normalized_weights)))) - 1) <= 1e-9:
+            errs.append(f"mixture weights sum to {float(np.sum(np.exp(_np(d2.log_normalized_weights))))!r} after moving the trainable arrays")
+        if "Multivariate" in e["name"] and not np.all(np.diag(_np(d2.bijection.triangular)) > 0):
+            errs.append("Cholesky diagonal not positive after moving the trainable arrays")
+        report(e["name"], e["case"], errs)
+    for e in leaf_entries(ctx):
+        b, cs, errs = e["bij"], e["case"], []
+        u.count((e["name"], cs), tag=e["name"].split("(")[0])
+        ub, up = W.unwrap(b), W.unwrap(perturb(b, rng, 5.0))
+        if "scale" in cs and not np.allclose(_np(ub.scale), np.broadcast_to(_np(cs["scale"]), ub.scale.shape), rtol=e["tol"], atol=e["tol"]):
+            errs.append(f"unwrapped scale {np.ravel(_np(ub.scale)).tolist()} is not the constructor's")
+        if "scale" in cs and not np.all(_np(up.scale) > 0):
+            errs.append("scale not positive after moving the trainable arrays")
+        if "arr" in cs:
+            A = (np.tril if cs["lower"] else np.triu)(_np(cs["arr"]))
+            if not np.allclose(_np(ub.triangular), A, rtol=1e-11, atol=1e-11) or not np.all(np.diag(_np(up.triangular)) > 0) or np.any((np.triu if cs["lower"] else np.tril)(_np(up.triangular), 1 if cs["lower"] else -1)):
+                errs.append(f"triangular {_np(ub.triangular).tolist()} is not the requested triangle of the given matrix / loses its positive diagonal or its zeros after moving the arrays")
+        if "Spline" in e["name"] and cs["softmax_adjust"] >= 0.125:
+            lo, hi = cs["interval"] if isinstance(cs["interval"], tuple) else (-cs["interval"], cs["interval"])
+            for f in ("x_pos", "y_pos"):
+                p = _np(getattr(up, f))
+                if p.shape != (cs["knots"] + 2,) or p[0] != lo or p[-1] != hi or not np.all(np.diff(p) > 0):
+                    errs.append(f"{f} = {p.tolist()} is not strictly increasing from {lo} to {hi} with {cs['knots']} inner knots")
+            if not np.all(_np(up.derivatives) >= cs["min_derivative"] * (1 - e["tol"])):
+                errs.append(f"derivatives {_np(up.derivatives).tolist()} below min_derivative {cs['min_derivative']}")
+        if "Planar" in e["name"]:
+            pl = up.get_planar()
+            wu = float(pl.weight @ pl.get_act_scale())
+            if not (1 + wu > 0 and 1 + cs["negative_slope"] * wu > 0):
+                errs.append(f"planar layer not invertible: w.u = {wu!r} with slope {cs['negative_slope']} (needs 1 + w.u > 0 and 1 + slope * w.u > 0)")
+        report(e["name"], cs, errs)
+    # rejections, in every type variant of the offending number
+    from flowjax.bisection_search import AutoregressiveBisectionInverter as ABI
+    comp = eqx.filter_vmap(D.Normal)(jnp.zeros(3), jnp.ones(3))
+    bad = [("Affine(scale<=0)", lambda v: B.Affine(0, v), (-2, 0)), ("Scale(scale<=0)", lambda v: B.Scale(v), (-1, 0)), ("Normal(scale<=0)", lambda v: D.Normal(1, v), (-3, 0)),
+           ("StudentT(df<=0)", lambda v: D.StudentT(v), (-1, 0)), ("Exponential(rate<0)", lambda v: D.Exponential(v), (-2, -0.5)), ("Uniform(maxval<=minval)", lambda v: D.Uniform(1, v), (1, -2)),
+           ("RationalQuadraticSpline(softmax_adjust<0)", lambda v: W.unwrap(B.RationalQuadraticSpline(knots=3, interval=2, softmax_adjust=v)).x_pos, (-1, -0.5)),
+           ("Planar(negative_slope<=0)", lambda v: B.Planar(jr.PRNGKey(0), dim=2, negative_slope=v).transform(jnp.ones(2)), (-1, 0)),
+           ("AutoregressiveBisectionInverter(upper<=lower)", lambda v: ABI(lower=2, upper=v), (2, -3)), ("AutoregressiveBisectionInverter(tol<=0)", lambda v: ABI(tol=v), (0, -1)),
+           ("AutoregressiveBisectionInverter(max_iter<0)", lambda v: ABI(max_iter=v), (-1, -5))]
+    for name, mk, vals in bad:
+        for v in vals:
+            kind = kind_of(rng, v)
+            ur.count((name, v, kind), tag=name.split("(")[0])
+            try:
+                mk(K(v, kind))
+                _viol(ctx, ur, "C11", f"C11:accepts:{name}", f"{name}: the value {v} given as {kind} is accepted", dict(entry=name, value=v, kind=kind))
+            except Exception:  # noqa: BLE001
+                pass
+    for name, mk in (("VmapMixture(weights<=0)", lambda a: D.VmapMixture(comp, a)), ("TriangularAffine(diagonal<=0)", lambda a: B.TriangularAffine(0, np.diag(_np(a)) if isinstance(a, np.ndarray) else jnp.diag(a))),
+                     ("Affine(array scale<=0)", lambda a: B.Affine(0, a)), ("Permute(not a permutation)", lambda a: B.Permute((a if isinstance(a, np.ndarray) else np.asarray(a)).astype(np.int32)))):
+        how = ARR_HOW[int(rng.integers(0, 6))]
+        a = _arr(rng, [[2.0, 2.0, 0.0], [3.0, 0.0, 1.0], [1.0, -1.0, 0.0]][int(rng.integers(0, 3))] if "Permute" in name else [2.0, [0.0, -1.0][int(rng.integers(0, 2))], 1.0], how)
+        ur.count((name, _np(a).tolist(), how), tag=name.split("(")[0])
+        try:
+            mk(a)
+            _viol(ctx, ur, "C11", f"C11:accepts:{name}", f"{name}: the array {_np(a).tolist()} given as {how} is accepted", dict(entry=name, value=_np(a).tolist(), kind=how))
+        except Exception:  # noqa: BLE001
+            pass
+
+
+def unit_c18(ctx):
+    L = _L()
+    rng, jnp, jax, eqx, B, D, W = ctx.rng, L["jnp"], L["jax"], L["eqx"], L["B"], L["D"], L["W"]
+    u = ctx.unit("argcov-finite-gradients", "Transformed(StandardNormal, bijection built with non-default keywords / type variants), the families built from type variants and the flow "
+                                            "factories with non-default keywords: log_prob is never NaN and wherever it is finite d/dx and d/d(every inexact leaf) are finite; inputs: "
+                                            "random, x100, the LeakyTanh switch point / spline interval ends as given (integers, float32)")
+    items = [(e["name"], e["case"], e["dist"], True) for e in dist_entries(ctx)]
+    for e in _entries(ctx, ("leaf", "net")):
+        b = e["bij"]
+        if "lock" in e["name"]:  # log_prob must use the analytic side of a BNAF (the bisection cannot be differentiated)
+            b = B.Invert(b) if type(b).__name__ != "Invert" else b
+        d = e.get("dist")
+        items.append((e["name"], e["case"], D.Transformed(D.StandardNormal(b.shape), b) if d is None or "lock" in e["name"] else d, e.get("jit", True)))
+    for name, case, d, jit in items:
+        params, static = eqx.partition(d, eqx.is_inexact_array, is_leaf=lambda n: isinstance(n, W.NonTrainable))
+        f = jax.value_and_grad(lambda p, x, c: eqx.combine(p, static).log_prob(x, *(() if c is None else (c,))), argnums=(0, 1))
+        f = eqx.filter_jit(f) if jit else f  # one trace per object (NumPy-typed planar slopes do not trace: eager)
+        c = None if d.cond_shape is None else jnp.asarray(rng.normal(0, 1, d.cond_shape))
+        xs = [rng.normal(0, 1.5, d.shape), rng.normal(0, 30, d.shape)]
+        if "max_val" in case:
+            xs.append(np.full(d.shape, case["max_val"]) * rng.choice([-1.0, 1.0], d.shape))
+        if "interval" in case:
+            iv = case["interval"]
+            xs += [np.asarray(float(v)) for v in (iv if isinstance(iv, tuple) else (-iv, iv))] + [np.asarray(float(np.max(np.abs(iv))) + 1.0)]
+        for x in xs:
+            u.count((name, case, np.asarray(x).tolist()), tag=name.split("(")[0])
+            try:
+                v, (gp, gx) = f(params, jnp.asarray(x), c)
+            except Exception as ex:  # noqa: BLE001
+                _viol(ctx, u, "C18", f"C18:{name}:raises", f"{name} built with {case}: the gradient of log_prob at x = {np.ravel(x).tolist()} raises {type(ex).__name__}: {str(ex)[:100]}", dict(entry=name, args=case, x=np.asarray(x).tolist()))
+                break
+            bad = [] if not abs(float(v)) < 1e12 else [  # beyond: float overflow inside a perturbed network, outside the property
+                   k for k, g in [("x", gx)] + [(jax.tree_util.keystr(p), g) for p, g in jax.tree_util.tree_leaves_with_path(gp)] if not np.all(np.isfinite(_np(g)))]
+            if np.isnan(float(v)) or bad:
+                _viol(ctx, u, "C18", f"C18:{name}", f"{name} built with {case}: log_prob({np.ravel(x).tolist()}) = {float(v)!r}" + (f" is finite but the gradient w.r.t. {bad[:3]} is not" if bad else ""),
+                      dict(entry=name, args=case, x=np.asarray(x).tolist(), condition=None if c is None else _np(c).tolist()))
+                break
+
+
+# ------------------------------------------------------------------ wrappers, training loops, losses
+def unit_c12(ctx):
+    import optax
+    from flowjax.train import fit_to_data, fit_to_variational_target
+    from flowjax.train.losses import ElboLoss
+
+    L = _L()
+    rng, jnp, jax, eqx, B, D, W = ctx.rng, L["jnp"], L["jax"], L["eqx"], L["B"], L["D"], L["W"]
+    u = ctx.unit("argcov-wrapper-arguments", "wrappers built from python scalars / bools, NumPy scalars and arrays, float32, integer dtype, keyword and positional Lambda arguments, "
+                                             "invert_on_init both ways, inside dict / list / tuple containers: unwrap == the NumPy value, is idempotent, leaves other leaves alone")
+    sp, spinv = lambda v: np.logaddexp(_np(v), 0.0), lambda v: np.log(np.expm1(_np(v)))
+    for rep in range(6):
+        (a, ak), (b_, bk), hw = _num(rng, 0.5, 4), _num(rng, -3, 3), ARR_HOW[int(rng.integers(0, 6))]
+        arr, cond = _arr(rng, rng.uniform(1, 4, (2, 3)), hw), [True, False, np.bool_(True), np.array([True, False, True]), np.array([1, 0, 1]), jnp.asarray([False, True, True])][int(rng.integers(0, 6))]
+        w2 = _arr(rng, rng.normal(0, 1, (2, 3)) + 2, ["np64", "np32", "jax32", "jax64"][int(rng.integers(0, 4))])
+        tree = {"reparam-inv": W.BijectionReparam(arr, B.SoftPlus()), "reparam-raw": W.BijectionReparam(K(a, ak), B.SoftPlus(), invert_on_init=False),
+                "reparam-default": (W.BijectionReparam(jnp.asarray(_np(arr)), B.Exp((3,))), 7, "text"), "where": [W.Where(cond, K(a, ak), W.BijectionReparam(arr, B.SoftPlus()))],
+                "lambda": W.Lambda(lambda p, q=1.0, *, r: p * q + r, K(a, ak), r=arr), "lambda-pos": W.Lambda(lambda p, q: p - q, arr, K(b_, bk)),
+                "frozen": W.NonTrainable({"np": _np(arr), "py": a, "f32": np.float32(b_)}), "nt": W.non_trainable((_np(arr), a, np.arange(3), jnp.asarray(_np(arr), dtype=jnp.float32))),
+                "wn": W.WeightNormalization(w2), "plain": (arr, K(b_, bk))}
+        A_, c_ = _np(arr), np.asarray(cond).astype(bool)
+        exp = {"reparam-inv": A_, "reparam-raw": sp(a), "reparam-default": (A_, 7, "text"), "where": [np.where(c_, a, A_)], "lambda": a * 1.0 + A_, "lambda-pos": A_ - b_,
+               "frozen": {"np": A_, "py": a, "f32": b_}, "nt": (A_, a, np.arange(3), A_), "wn": _np(w2) / np.linalg.norm(_np(w2), axis=-1, keepdims=True) * 1.0, "plain": (A_, b_)}
+        exp["wn"] = exp["wn"] * (1.0 / np.linalg.norm(_np(w2), axis=-1, keepdims=True))  # scale initialised to 1/||row||
+        case = dict(a=a, b=b_, arr=A_.tolist(), cond=np.asarray(cond).tolist(), kinds=[ak, bk, hw, type(cond).__name__])
+        u.count((rep, case), tag="tree")
+        got = W.unwrap(tree)
+        errs = []
+        for (pg, g), (pe, ex) in zip(jax.tree_util.tree_leaves_with_path(got), jax.tree_util.tree_leaves_with_path(exp)):
+            if pg != pe or (isinstance(ex, str) and g != ex) or (not isinstance(ex, str) and (np.shape(g) != np.shape(ex) or not np.allclose(_np(g), _np(ex), rtol=ktol(ak, bk, hw, "32"), atol=1e-6))):
+                errs.append(f"unwrap at {jax.tree_util.keystr(pg)} = {np.ravel(np.asarray(g)).tolist()[:4]}, expected {jax.tree_util.keystr(pe)} = {np.ravel(np.asarray(ex)).tolist()[:4]}")
+        again = W.unwrap(got)
+        if jax.tree_util.tree_structure(again) != jax.tree_util.tree_structure(got) or any(isinstance(n, W.AbstractUnwrappable) for n in jax.tree_util.tree_leaves(got, is_leaf=lambda n: isinstance(n, W.AbstractUnwrappable))):
+            errs.append("unwrap is not idempotent / leaves a wrapper behind")
+        if errs:
+            _viol(ctx, u, "C12", "C12:unwrap-arguments", f"wrapper tree built with {case}: " + "; ".join(errs[:2]), dict(args=case))
+    # frozen leaves under the DEFAULT optimiser of both loops with a learning_rate in every type variant; the first Adam step moves every trainable leaf by learning_rate
+    uf = ctx.unit("argcov-frozen-default-optimizer", "fit_to_data / fit_to_variational_target with optimizer=None and learning_rate as python / NumPy / 0-d array / float32: NonTrainable leaves "
+                                                     "and non-float leaves bit-identical, every trainable leaf moved by learning_rate (first Adam step) - and not at all by learning_rate when an optimizer is given")
+    for rep in range(4):
+        lr, lrk = [0.125, 0.25, 0.03125][int(rng.integers(0, 3))], kind_of(rng, 0.125)
+        dist = D.Transformed(D.Normal(jnp.asarray(rng.normal(0, 1, 2)), K(1.5, kind_of(rng, 1.5))), W.non_trainable(B.Affine(jnp.asarray([0.5, -0.5]), 2.0)))
+        dist = eqx.tree_at(lambda d: d.base_dist.bijection.loc, dist, W.NonTrainable(dist.base_dist.bijection.loc))
+        x = rng.normal(0, 1, (12, 2))
+        which, given = ["data", "variational"][rep % 2], bool(rng.integers(0, 2))
+        kw = dict(learning_rate=K(lr, lrk), show_progress=bool(rng.integers(0, 2)), return_best=False, **(dict(optimizer=optax.sgd(0.5)) if given else {}))
+        case = dict(loop=which, learning_rate=lr, kind=lrk, optimizer="sgd(0.5)" if given else None, show_progress=kw["show_progress"], x=x.tolist())
+        uf.count((rep, case), tag=which)
+        try:
+            if which == "data":
+                new, _ = fit_to_data(_key(rng), dist, [x, x.astype(np.float32), jnp.asarray(x)][int(rng.integers(0, 3))], max_epochs=1, batch_size=50, val_prop=0.25, **kw)
+            else:
+                new, _ = fit_to_variational_target(_key(rng), dist, ElboLoss(lambda v: -0.5 * jnp.sum((v - 1.0) ** 2), num_samples=K(4, kind_of(rng, 4, INT_KINDS[:3]))), steps=K(1, kind_of(rng, 1, INT_KINDS)), **kw)
+            errs = []
+            is_nt = lambda n: isinstance(n, W.NonTrainable)
+            for (p, o), n_ in zip(jax.tree_util.tree_leaves_with_path(dist, is_leaf=is_nt), jax.tree_util.tree_leaves(new, is_leaf=is_nt)):
+                frozen = is_nt(o) or not eqx.is_inexact_array(o)
+                for ol, nl in zip(jax.tree_util.tree_leaves(o), jax.tree_util.tree_leaves(n_)):
+                    if frozen and not (np.array_equal(np.asarray(ol), np.asarray(nl)) if eqx.is_array_like(ol) else ol == nl):
+                        errs.append(f"frozen / non-float leaf {jax.tree_util.keystr(p)} changed from {np.ravel(np.asarray(ol)).tolist()[:3]} to {np.ravel(np.asarray(nl)).tolist()[:3]}")
+                    if not frozen and not given and not np.allclose(np.abs(_np(nl) - _np(ol)), lr, rtol=1e-3 + ktol(lrk)):
+                        errs.append(f"trainable leaf {jax.tree_util.keystr(p)} moved by {np.ravel(np.abs(_np(nl) - _np(ol))).tolist()[:3]} in the first Adam step with learning_rate {lr} ({lrk})")
+                    if not frozen and given and np.allclose(np.abs(_np(nl) - _np(ol)), lr, rtol=1e-3):
+                        errs.append(f"trainable leaf {jax.tree_util.keystr(p)} moved by exactly learning_rate although an optimizer was given (learning_rate must be ignored)")
+        except Exception as ex:  # noqa: BLE001
+            errs = [f"raised {type(ex).__name__}: {str(ex)[:120]}"]
+        if errs:
+            _viol(ctx, uf, "C12", f"C12:frozen-default-optimizer:{which}", f"{which} loop with {dict((k, v) for k, v in case.items() if k != 'x')}: " + "; ".join(errs[:2]), dict(args=case))
+
+
+def unit_c15(ctx):
+    """The clauses of C15 on the call trace of the real fit_to_data (callback loss + counting optimiser of harness/c15.py) under argument forms that harness/c15.py never
+    passes: x / condition as NumPy arrays (float64, float32, integer dtype), batch_size as NumPy ints and larger than the data, val_prop as NumPy floats, show_progress=True."""
+    from harness import c15
+
+    S = c15._setup()
+    rng, jnp, jax = ctx.rng, S["jnp"], S["jax"]
+    u = ctx.unit("argcov-data-arguments", "fit_to_data with NumPy-typed x / condition / batch_size / val_prop, batch_size > n, show_progress=True: rows pair x with their own condition, "
+                                          "train and validation rows are disjoint and of the documented sizes, a training row is used at most once per epoch in full batches, keys are "
+                                          "fresh, the same key reproduces the run")
+    for rep in range(6):
+        n, epochs = int(rng.integers(4, 25)), int(rng.integers(1, 4))
+        vp = float(rng.integers(1, n)) / n if rng.integers(0, 2) else [0.25, 0.5, 0.125][int(rng.integers(0, 3))]
+        nt = n - round(vp * n)
+        if not 0 < nt < n:
+            continue
+        bs = int([rng.integers(1, nt + 1), nt, n + int(rng.integers(0, 50)), 10 ** 6][int(rng.integers(0, 4))])
+        bsk, vpk, xh, ch = kind_of(rng, bs, ("pyint", "np.int64")), kind_of(rng, 0.5, ("pyfloat", "np.float64", "np0d", "jax0d")), int(rng.integers(0, 4)), int(rng.integers(0, 5))
+        form = lambda a, h: [a, a.astype(np.float32), a.astype(np.int32), jnp.asarray(a, dtype=jnp.float32), None][h]
+        xid = np.repeat(np.arange(n, dtype=float)[:, None], c15.XCOLS, 1)
+        x, c = form(xid, xh), form(c15.COND_TAG + xid, ch)
+        show, seed = bool(rng.integers(0, 2)), int(rng.integers(0, 2 ** 31))
+        case = dict(n=n, epochs=epochs, val_prop=vp, batch_size=bs, kinds=[bsk, vpk], x_form=xh, condition_form=ch, show_progress=show, seed=seed)
+        u.count(case, tag=f"x{xh}c{ch}")
+
+        def once():
+            c15._seen.clear()
+            d, _ = S["fit_to_data"](S["jr"].PRNGKey(seed), S["M"](jnp.array(0.0)), x, condition=c, loss_fn=S["loss_fn"], max_epochs=epochs, max_patience=c15.BIG_PATIENCE,
+                                    batch_size=K(bs, bsk), val_prop=K(vp, vpk), optimizer=S["opt"], return_best=False, show_progress=show)
+            jax.effects_barrier()
+            calls = [(p, kb, c15._decode(xa, 0), c15._decode(ca, c15.COND_TAG)) for (p, kb, xa, ca) in c15._seen]
+            c15._seen.clear()
+            return calls, int(d.p)
+        try:
+            calls, final = once()
+            errs = []
+            ps = [q[0] for q in calls] + [final]
+            kinds = ["T" if ps[i + 1] == ps[i] + 1 else "V" for i in range(len(calls))]
+            eb = min(bs, nt)
+            per_t, per_v = nt // eb, (n - nt) // min(bs, n - nt)
+            if kinds != (["T"] * per_t + ["V"] * per_v) * epochs:
+                errs.append(f"call pattern {''.join(kinds)} is not {epochs} x ({per_t} gradient steps of {eb} rows + {per_v} validation calls)")
+            T, V = set(), set()
+            for i, (p, kb, xr, cr) in enumerate(calls):
+                if -1 in xr or (cr is not None and cr != xr):
+                    errs.append(f"call {i}: x rows {xr} are paired with condition rows {cr}")
+                if len(set(xr)) != len(xr) or len(xr) != (eb if kinds[i] == "T" else min(bs, n - nt)):
+                    errs.append(f"call {i} ({kinds[i]}): rows {xr}: repeated rows or not a full batch")
+                (T if kinds[i] == "T" else V).update(xr)
+            for e_ in range(epochs):
+                rows = [r for i, q in enumerate(calls) if kinds[i] == "T" and i // max(per_t + per_v, 1) == e_ for r in q[2]]
+                if len(set(rows)) != len(rows):
+                    errs.append(f"epoch {e_}: a training row is used twice: {sorted(rows)}")
+            if T & V or len(T) > nt or len(V) > n - nt or (per_t * eb == nt and len(T) != nt):
+                errs.append(f"rows in gradient steps {sorted(T)} and validation rows {sorted(V)} are not disjoint parts of sizes {nt} / {n - nt}")
+            if len({q[1] for q in calls}) != len(calls):
+                errs.append("a key is handed to two loss calls")
+            if once() != (calls, final):
+                errs.append("the same key does not reproduce the run")
+        except Exception as ex:  # noqa: BLE001
+            errs = [f"raised {type(ex).__name__}: {str(ex)[:120]}"]
+        if errs:
+            _viol(ctx, u, "C15", "C15:data-arguments", f"fit_to_data with {case}: " + "; ".join(errs[:2]), dict(args=case))
+
+
+def unit_c16(ctx):
+    """Scripted loss + counting optimiser of harness/c16.py; the arguments harness/c16.py passes as python values are given as NumPy / 0-d jax values, plus batch_size > n,
+    show_progress=True, NumPy x, val_prop as a NumPy float, steps in every integer variant; the clauses are c16.oracle_data / c16.oracle_var."""
+    from harness import c16
+
+    S = c16._setup()
+    rng, jnp = ctx.rng, S["jnp"]
+    u = ctx.unit("argcov-loop-arguments", "fit_to_data(max_epochs / max_patience as python int, np.int64, 0-d NumPy / jax arrays; batch_size np.int64; val_prop np.float64 / 0-d; return_best np.bool_; "
+                                          "show_progress=True; NumPy x; batch_size > n) and fit_to_variational_target(steps in every integer variant, show_progress=True): stopping epoch, "
+                                          "recorded losses and returned parameters as the property states")
+    for rep in range(60 if ctx.quick else 600):
+        Ln = int(rng.integers(1, 8))
+        vals = [int(v) for v in (rng.permutation(np.arange(1, Ln + 1)) if rng.integers(0, 2) else rng.integers(1, 4, Ln))]
+        rb, show = bool(rng.integers(0, 2)), rng.random() < 0.3
+        rbv = [rb, np.bool_(rb)][int(rng.integers(0, 2))]
+        if rep % 2:
+            P, m, nb = int(rng.integers(0, 4)), int(rng.integers(0, Ln + 1)), int(rng.integers(1, 3))
+            pk, mk, bk, vk = kind_of(rng, P, INT_KINDS), kind_of(rng, m, INT_KINDS), kind_of(rng, 3, ("pyint", "np.int64")), kind_of(rng, 0.5, ("pyfloat", "np.float64", "np0d", "jax0d"))  # batch_size is a static jit argument: hashable kinds only
+            big = nb == 1 and bool(rng.integers(0, 2))  # one training batch per epoch: a batch_size above n must behave as batch_size = n_train
+            table = np.full(c16.TLEN, 9999, dtype=np.int64)
+            table[[e_ * nb for e_ in range(1, Ln + 1)]] = vals
+            n = 3 * nb + 1
+            x = np.arange(float(n))[:, None]
+            case = dict(loop="fit_to_data", vals=vals, max_patience=P, max_epochs=m, return_best=rb, batches_per_epoch=nb, batch_size=n + 7 if big else 3, kinds=[pk, mk, bk, vk, type(rbv).__name__], show_progress=show)
+            u.count(case, tag="data")
+            try:
+                d, ls = S["fit_to_data"](S["jr"].PRNGKey(0), S["M"](jnp.array(0.0), jnp.asarray(table)), [x, x.astype(np.float32), jnp.asarray(x)][int(rng.integers(0, 3))], loss_fn=S["data_loss"],
+                                         max_epochs=K(m, mk), max_patience=K(P, pk), batch_size=K(case["batch_size"], bk), val_prop=K(1.0 / n, vk), optimizer=S["counting"](), return_best=rbv, show_progress=show)
+                errs = c16.oracle_data(vals, P, m, rb, nb, (int(d.p), [float(v) for v in ls["train"]], [float(v) for v in ls["val"]]))
+            except Exception as ex:  # noqa: BLE001
+                errs = [f"raised {type(ex).__name__}: {str(ex)[:120]}"]
+        else:
+            steps = int(rng.integers(0, Ln + 1))
+            sk = kind_of(rng, steps, INT_KINDS)
+            table = np.full(c16.TLEN, 9999, dtype=np.int64)
+            table[: Ln] = vals
+            case = dict(loop="fit_to_variational_target", losses=vals, steps=steps, return_best=rb, kinds=[sk, type(rbv).__name__], show_progress=show)
+            u.count(case, tag="variational")
+            try:
+                d, ls = S["fit_var"](S["jr"].PRNGKey(0), S["M"](jnp.array(0.0), jnp.asarray(table)), S["var_loss"], steps=K(steps, sk), optimizer=S["counting"](), return_best=rbv, show_progress=show)
+                errs = c16.oracle_var(vals, steps, rb, (int(d.p), [float(v) for v in ls]))
+            except Exception as ex:  # noqa: BLE001
+                errs = [f"raised {type(ex).__name__}: {str(ex)[:120]}"]
+        if errs:
+            _viol(ctx, u, "C16", f"C16:{case['loop']}", f"{case['loop']} with {case}: " + "; ".join(errs[:2]), dict(args=case))
+
+
+def unit_c17(ctx):
+    from harness import c17, flowcases
+    from flowjax.train import losses as LS
+
+    L = _L()
+    rng, jnp, eqx, B, D, F, W = ctx.rng, L["jnp"], L["eqx"], L["B"], L["D"], L["F"], L["W"]
+    u = ctx.unit("argcov-loss-arguments", "MaximumLikelihoodLoss (x as NumPy / float32, condition by keyword, key given / omitted), ElboLoss (num_samples as NumPy ints, stick_the_landing "
+                                          "both ways), ContrastiveLoss (n_contrastive = batch - 1 and smaller, condition None, non-Normal priors built from type variants) on models built with non-default keywords: "
+                                          "value == the defining estimator computed with NumPy from the public methods; contrastive rows distinct others; loss >= 0")
+    part = lambda d: eqx.partition(d, eqx.is_inexact_array, is_leaf=lambda n: isinstance(n, W.NonTrainable))
+    for rep in range(4 if ctx.quick else 20):
+        dim, cd = int(rng.integers(1, 4)), [None, 2][int(rng.integers(0, 2))]
+        base = D.StandardNormal((dim,))
+        flows = [lambda: F.masked_autoregressive_flow(_key(rng), base_dist=base, cond_dim=cd, flow_layers=2, nn_width=dim + 2, nn_depth=int(rng.choice([0, 2])), nn_activation=jnp.tanh, invert=bool(rng.integers(0, 2))),
+                 lambda: F.planar_flow(_key(rng), base_dist=base, cond_dim=cd, flow_layers=2, invert=False, negative_slope=K(*_num(rng, 0.25, 3, allowed=("pyint", "pyfloat"))), **({} if cd is None else dict(width_size=3, depth=0))),
+                 lambda: D.Transformed(D.StudentT(K(*_num(rng, 2, 9)), jnp.zeros(dim), K(*_num(rng, 0.5, 2))), B.Affine(jnp.asarray(rng.normal(0, 1, dim)), K(*_num(rng, 0.5, 3))))]
+        j = int(rng.integers(0, 3))
+        d = flows[j]()
+        cd = d.cond_shape and cd
+        d = flowcases.perturb(d, rng, 0.3)
+        p, st_ = part(d)
+        Bn = int(rng.integers(3, 8))
+        xh = int(rng.integers(0, 3))
+        x64 = rng.normal(0, 1.2, (Bn, dim))
+        x = [x64, x64.astype(np.float32), jnp.asarray(x64, dtype=jnp.float32)][xh]
+        xe = _np(x)  # the values the loss actually receives
+        c = None if cd is None else jnp.asarray(rng.normal(0, 1, (Bn, cd)))
+        key, errs = _key(rng), []
+        case = dict(model=["maf(nn_depth, tanh)", "planar_flow(invert=False, negative_slope)", "Transformed(StudentT, Affine)"][j], dim=dim, cond_dim=cd, batch=Bn, x_form=xh, x=x64.tolist(), key=_np(key).tolist())
+        lp = lambda xs, cc=None: _np(d.log_prob(jnp.asarray(xs), *(() if cd is None else (c if cc is None else cc,))))
+        try:
+            u.count((rep, "ml", case), tag="ml")
+            ml = LS.MaximumLikelihoodLoss()
+            got = [float(ml(p, st_, jnp.asarray(x) if xh < 2 else x, condition=c)), float(ml(p, st_, jnp.asarray(x), c, key)), float(ml(p, st_, jnp.asarray(x), c, key=None))]
+            if not all(abs(g - c17.np_ml(lp(xe))) <= 1e-9 * max(1, abs(g)) for g in got):
+                errs.append(f"MaximumLikelihoodLoss = {got} (condition by keyword / with key / key=None), minus the mean log-probability is {c17.np_ml(lp(xe))!r}")
+            if cd is None and "StudentT" not in case["model"]:
+                ns, nk = int(rng.integers(1, 6)), kind_of(rng, 3, ("pyint", "np.int64"))
+                u.count((rep, "elbo", ns, nk), tag="elbo")
+                target = lambda v: -0.5 * jnp.sum((v - 0.5) ** 2) + jnp.sum(jnp.sin(v))
+                vals = [float(LS.ElboLoss(target, K(ns, nk), stick_the_landing=stl)(p, st_, key)) for stl in (False, True)]
+                xs, lq = d.sample_and_log_prob(key, (ns,))
+                ref = c17.np_elbo(_np(lq), [float(target(v)) for v in xs])
+                if not all(abs(v - ref) <= 1e-8 * max(1, abs(ref)) for v in vals):
+                    errs.append(f"ElboLoss(num_samples={ns} as {nk}) = {vals} (stick_the_landing False / True), mean(log q - target) over the samples of the key is {ref!r}")
+            n = [Bn - 1, int(rng.integers(1, Bn))][int(rng.integers(0, 2))]
+            nk = "pyint"  # a NumPy-typed n_contrastive is vmapped as if it were data (ValueError): outside the documented `int`, see ARGCOV.md
+            prior = [D.Normal(jnp.zeros(dim), 2.0), D.StudentT(3, jnp.zeros(dim), 1.5), D.Laplace(jnp.zeros(dim), K(2, kind_of(rng, 2)))][int(rng.integers(0, 3))]
+            u.count((rep, "contrastive", n, nk), tag="contrastive")
+            got = float(LS.ContrastiveLoss(prior, K(n, nk))(p, st_, jnp.asarray(xe), c, key))
+            idxs = np.asarray(LS._get_contrastive_idxs(key, Bn, n))
+            LQ = np.stack([lp(xe, None if cd is None else jnp.broadcast_to(c[i], (Bn, cd))) for i in range(Bn)])
+            ref, rows = c17.np_contrastive(LQ, _np(prior.log_prob(jnp.asarray(xe))), idxs.tolist())
+            errs += c17.idx_clauses(idxs, Bn, n)[:1]
+            if not abs(got - ref) <= 1e-8 * max(1, abs(ref)) or got < -1e-12:
+                errs.append(f"ContrastiveLoss(n_contrastive={n} as {nk}) = {got!r}, the softmax cross-entropy over rows {idxs.tolist()} is {ref!r}")
+        except Exception as ex:  # noqa: BLE001
+            errs.append(f"raised {type(ex).__name__}: {str(ex)[:120]}")
+        if errs:
+            _viol(ctx, u, "C17", "C17:loss-arguments", f"losses on {dict((k, v) for k, v in case.items() if k not in ('x', 'key'))}: " + "; ".join(errs[:2]), dict(args=case))
+    c17._free_compiled()
 
 
 def run_units(ctx, prop):
